@@ -8,7 +8,7 @@ CONSTANTS
   PolyAllLen = 0
   MaxThreads = 17
   SchedThreads = {1,2,3,4,5,6,7,8,9,10,11,12,13,14,15,16,17}
-  Fams = {"fft", "twid", "poly", "binv"}
+  Fams = {"fft", "twid"}
 INVARIANTS
   FftIsDirectEvaluation
   CosetFftIsDirectEvaluation
